@@ -588,7 +588,35 @@ def r9(ctx):
         ctx.ob('C07.R9', fn, c, ok, 'range text parsed by the derived type', 'reached only behind the divisor derivation: %s' % ok)
 
 
+def r10(ctx):
+    ctx.rule('C07.R10', 'a parsed number keeps double precision until it becomes the raw integer: in the field input parsers a '
+             'conversion double -> float is applied only to a value that is handed to the float encoders '
+             '(floatToUint / floatToUint16, raw format IEEE 754 or DPT 9); anywhere else the 24 bit mantissa rounds 4-byte '
+             'values several steps away and lets values beyond the configured maximum round down into it', minimum=1)
+    fb = ctx.fb
+    n = 0
+    for fn in fb.functions:
+        if not in_scope(fn) or not fn.blocks:
+            continue
+        if not (fn.name.endswith('::parseInput') or fn.name.endswith('::writeSymbols') or fn.name.endswith('::getRawValueFromFloat')):
+            continue
+        for x, v in sorted(fn.nodes.items()):
+            narrowing = v.get('ck') == 'FloatingCast' and (v.get('t') or '').replace('const ', '') == 'float' and \
+                (v.get('st') or '').replace('const ', '') in ('double', 'long double')
+            if not narrowing:
+                continue
+            n += 1
+            ctx.touch(fn)
+            feeds = any(fn.nodes[a].get('k') == 'CallExpr' and (fn.nodes[a].get('callee') or '').split('::')[-1] in ('floatToUint', 'floatToUint16')
+                        for a in fn.ancestors(x))
+            ctx.ob('C07.R10', fn, x, feeds, 'double -> float in %s' % fn.name.split('::')[-1],
+                   'value goes to a float encoder: %s' % feeds)
+    if n < 1:
+        raise AnalysisBroken('C07.R10: no float conversion found in the field input parsers')
+
+
 def run(ctx):
+    r10(ctx)
     r9(ctx)
     r8(ctx)
     r6(ctx)
